@@ -288,6 +288,8 @@ def run_value_property(ctx: Ctx, prop: str, n_quick: int, n_thorough: int, rule:
     roots = roots if roots is not None else all_roots(sub.model)
     n = n_quick if ctx.quick else n_thorough
     n = int(os.environ.get("LSPVERIF_CASES", n))
+    # the order in which classes reach a converter is part of the history (per-converter caches): it varies with the seed
+    roots = sorted(roots, key=lambda r: derive_seed(ctx.seed, "order", root_name(r)))
     shards = runner.chunks(roots, runner.NPROC * 4)
     args = [(prop, sh, n, ctx.seed, not ctx.quick, 6) for sh in shards]
     results = runner.pmap(_worker, args)
@@ -324,10 +326,53 @@ def run_value_property(ctx: Ctx, prop: str, n_quick: int, n_thorough: int, rule:
         "union_alternatives_produced": covered,
         "union_alternatives_never_produced": sorted(declared - set(unions))[:20],
     })
+    if prop in ("C01", "C02", "C03"):
+        seeds = [derive_seed(ctx.seed, "hashseed", i) % (2**32) for i in range(2 if ctx.quick else 6)]
+        extra = hash_seed_sweep(ctx, prop, seeds, 25 if ctx.quick else 150)
+        ctx.coverage["hash_seed_sweep"] = {"PYTHONHASHSEED": seeds, "cases": extra, "roots": len(SWEEP_ROOTS)}
+        ctx.coverage["evaluations"] += extra
     if extra_cov:
         ctx.coverage.update(extra_cov)
     if evaluations == 0:
         raise HarnessError("no cases generated")
+
+
+SWEEP_ROOTS = [("struct", "ServerCapabilities"), ("struct", "ClientCapabilities"), ("struct", "WorkspaceEdit"), ("struct", "CompletionItem"),
+               ("struct", "Hover"), ("struct", "TextDocumentRegistrationOptions"), ("msg", "response", "workspace/symbol"),
+               ("msg", "response", "textDocument/codeAction"), ("msg", "response", "textDocument/documentSymbol"),
+               ("msg", "response", "textDocument/definition"), ("msg", "request", "initialize"), ("msg", "notification", "$/progress")]
+
+
+def hash_seed_sweep(ctx: Ctx, prop: str, hash_seeds: List[int], n_cases: int) -> int:
+    """the same property on the hook-heavy roots in fresh interpreters under other PYTHONHASHSEEDs (the harness process
+    itself is pinned to one): order-of-iteration dependence inside the package would show here."""
+    import subprocess
+    import sys as _sys
+    total = 0
+    procs = []
+    for hs in hash_seeds:
+        code = (
+            "import sys, json; sys.path.insert(0, %r); "
+            "from lspverif import valuecheck; import lspverif.props.%s; "
+            "r = valuecheck._worker((%r, valuecheck.SWEEP_ROOTS, %d, %d, False, 3)); "
+            "print('SWEEP ' + json.dumps({'evaluations': r['evaluations'], 'violations': r['violations'], 'known_hits': r['known_hits'], 'known_examples': r['known_examples']}, default=repr))"
+        ) % (runner.VERIF, prop.lower(), prop, n_cases, derive_seed(ctx.seed, "sweep", hs) % (2**31))
+        env = dict(os.environ, PYTHONHASHSEED=str(hs), PYTHONDONTWRITEBYTECODE="1")
+        procs.append((hs, subprocess.Popen([_sys.executable, "-B", "-c", code], stdout=subprocess.PIPE, stderr=subprocess.PIPE, text=True, env=env)))
+    for hs, pr in procs:
+        out, err = pr.communicate(timeout=1800)
+        line = [ln for ln in out.splitlines() if ln.startswith("SWEEP ")]
+        if not line:
+            raise HarnessError(f"hash-seed sweep ({hs}) produced no result: {err[-300:]}")
+        res = json.loads(line[-1][6:])
+        for v in res["violations"]:
+            v["signature"][2] = f"{v['signature'][2]} [PYTHONHASHSEED={hs}]" if False else v["signature"][2]
+            v.setdefault("case", {})
+            if isinstance(v["case"], dict):
+                v["case"]["PYTHONHASHSEED"] = hs
+        ctx.merge_worker(res)
+        total += res["evaluations"]
+    return total
 
 
 def replay_value_case(ctx: Ctx, prop: str, path: str) -> int:
